@@ -213,7 +213,7 @@ def main(pid="C02"):
         rng = random.Random(C.seed())
         order = list(tasks)
         rng.shuffle(order)
-        budget = float(os.environ.get("VERIF_C02_BUDGET_S", "3600"))
+        budget = float(os.environ.get("VERIF_C02_BUDGET_S", "5500"))
         picked, spent = [], 0.0
         for t in order:
             c = costs.get(task_label(t), 4.0) + 2.5
@@ -230,7 +230,16 @@ def main(pid="C02"):
     chk.extra["fork_tasks"] = len(tasks)
     for r in C.run_named_tasks("harness.tables4", [("task_tables", (0,))]):
         chk.absorb_dict(r)
-    results = C.run_tasks(fork, tasks)
+    # tasks measured above 200 s need several GB: heavy slots (see run_named_tasks); costly first
+    try:
+        import json as _json
+
+        _costs = _json.load(open(os.path.join(os.path.dirname(os.path.abspath(__file__)), "c02_costs.json")))
+    except Exception:  # noqa: BLE001
+        _costs = {}
+    tasks = sorted(tasks, key=lambda t: -_costs.get(task_label(t), 4.0))
+    heavy = {i for i, t in enumerate(tasks) if _costs.get(task_label(t), 0) > 200}
+    results = C.run_tasks(fork, tasks, heavy=heavy)
     for r in results:
         chk.absorb_dict(r)
     chk.extra["macrovectors_feasible"] = nfeasible
